@@ -90,3 +90,40 @@ Section Chains.
     /\ eval_unused WJ [] (simplify_unused ub true pure_optional_call) = Some ([1000], Val VUndef).
   Proof. repeat split; vm_compute; reflexivity. Qed.
 End Chains.
+
+(* ---- ValuesLookTheSame ignores the typeof-identifier mark (known finding P) ---------- *)
+Section TypeofMark.
+  (* a world where the identifier 1000 is not declared and does not exist, and the
+     declared identifier 1 is falsy *)
+  Definition WP : world := {|
+    w_unbound := ub;
+    w_lenv := fun _ => VNum (Fin false 0 0);
+    w_this := VUndef;
+    w_genv := fun _ => None;
+    w_un := fun _ _ _ => ([], Val zero_v);
+    w_bin := fun _ _ _ _ => ([], Val zero_v);
+    w_call := fun _ _ _ => ([], Val VUndef);
+    w_new := fun _ _ _ => ([], Val VObjLit);
+    w_get := fun _ _ _ => ([], Val VUndef);
+    w_tokey := fun v _ => ([], Val v);
+    w_tostr := fun _ _ => ([], Val (VStr []));
+    w_spread := fun _ _ => ([], Val VUndef)
+  |}.
+  Definition typeof_bare : expr := EUn UTypeof (EId 1000 false false) true.    (* typeof x *)
+  Definition typeof_comma : expr := EUn UTypeof (EId 1000 false false) false.  (* typeof (0, x) *)
+
+  (* the two look the same to the helper but evaluate differently *)
+  Lemma values_look_the_same_refuted_w :
+    values_look_the_same typeof_bare typeof_comma = true
+    /\ eval WP [] typeof_bare = Some ([], Val (VStr s_undefined))
+    /\ eval WP [] typeof_comma = Some ([], Throw (VStr s_ReferenceError)).
+  Proof. repeat split; vm_compute; reflexivity. Qed.
+
+  (* a ? typeof x : typeof (0, x) is rewritten to typeof x: with a falsy the input
+     throws, the output does not *)
+  Lemma mangle_if_typeof_mark_refuted_w :
+    mangle_if ub false false (EId 1 false false) typeof_bare typeof_comma = Some typeof_bare
+    /\ eval WP [] (EIf (EId 1 false false) typeof_bare typeof_comma) = Some ([], Throw (VStr s_ReferenceError))
+    /\ eval WP [] typeof_bare = Some ([], Val (VStr s_undefined)).
+  Proof. repeat split; vm_compute; reflexivity. Qed.
+End TypeofMark.
